@@ -209,7 +209,20 @@ def discharge(ex, ops, outs, obligations, assumptions, obligations_fn=None, seed
 
     if live:
         allbad = O.or_(*[o.bad for o in live])
-        r, m = rcore.solve(st, assume, allbad, timeout_s, seed, label=family + ' : any obligation violated exactly')
+        r, m = rcore.solve(st, assume, allbad, timeout_s, seed, label=family + ' : any obligation violated exactly', stages=(0, 1))
+        if r != 'unsat':
+            # obligation by obligation through the cheap stages; only the residue goes to exact NRA
+            rest = []
+            for o in live:
+                r1, _ = rcore.solve(st, assume, o.bad, timeout_s, seed, stages=(0, 1), label=family + ' : ' + o.label)
+                if r1 != 'unsat': rest.append(o)
+            res['discharged'] = len(obligations) - len(rest)
+            live = rest
+            if live:
+                allbad = O.or_(*[o.bad for o in live])
+                r, m = rcore.solve(st, assume, allbad, timeout_s, seed, stages=(2,), label=family + ' : residue, exact NRA')
+            else:
+                r = 'unsat'
         if r == 'unsat':
             res['discharged'] = len(obligations)
         elif r == 'sat' and try_confirm([m], 'some obligation') is not None:
